@@ -6,16 +6,66 @@ import ast
 from ..dataflow import cone, get_defuse, setattr_expansions, stores
 from ..frontend import const_value, src, walk_no_nested
 
-SWITCH_NAMES = ("input_is_dask", "chunky")
+SWITCH_CALLS = ("is_input_dask_nested", "check_and_persist_dask_input")
 
 
-def is_switch(test):
-    t = src(test).replace(" ", "")
-    return t in SWITCH_NAMES or t.startswith("is_input_dask_nested(")
+def _dask_type_test(test):
+    return any(isinstance(c, ast.Call) and isinstance(c.func, ast.Name) and c.func.id == "isinstance" and len(c.args) == 2 and any(isinstance(x, ast.Name) and x.id in ("dask", "da") for x in ast.walk(c.args[1])) for c in ast.walk(test))
+
+
+def is_switch(test, P=None, f=None, _depth=0):
+    """Is this `if` test the "is the input a Dask collection?" switch?  Decided by where the tested value comes from
+    (the repository's two detection helpers, or a flag set under an isinstance-dask test), not by its name."""
+    if isinstance(test, ast.Call) and isinstance(test.func, ast.Name) and test.func.id == "is_input_dask_nested":
+        return True
+    if not isinstance(test, ast.Name) or f is None:
+        return False
+    du = get_defuse(f, P)
+    st = du.stmt_of(test)
+    rd = [d for d in du.reaching(st, test.id)]
+    if not rd:
+        return False
+    flag_true = flag = 0
+    for d in rd:
+        v = d.value
+        if d.how == "param" and d.var == "input_is_dask":
+            continue  # interface name of utils.array_to_delayed_list
+        if isinstance(v, ast.Call) and isinstance(v.func, ast.Name) and v.func.id == "is_input_dask_nested" and d.how == "assign":
+            continue
+        if isinstance(v, ast.Call) and d.how in ("assign", "unpack") and P is not None and _depth < 3:
+            # a repository helper that returns the switch (possibly as one component of a tuple)
+            tg = [t[1] for t in P.resolve_callee(v.func, f) if t[0] == "repo"]
+            if tg:
+                rets = [r for r in walk_no_nested(tg[0].node) if isinstance(r, ast.Return) and r.value is not None]
+                okc = bool(rets)
+                for r in rets:
+                    rv = r.value
+                    if d.how == "unpack":
+                        if not (isinstance(rv, ast.Tuple) and d.index is not None and d.index < len(rv.elts)):
+                            okc = False
+                            break
+                        rv = rv.elts[d.index]
+                    if not is_switch(rv, P, tg[0], _depth + 1):
+                        okc = False
+                        break
+                if okc:
+                    continue
+        if d.how == "assign" and isinstance(v, ast.Constant) and isinstance(v.value, bool):
+            flag += 1
+            if v.value:
+                from ..cfg import guards_of
+
+                if any(pol and _dask_type_test(t) for t, pol in guards_of(d.stmt)):
+                    flag_true += 1
+                else:
+                    return False
+            continue
+        return False
+    return flag == 0 or flag_true > 0
 
 
 def switch_sites(P, f):
-    return [n for n in walk_no_nested(f.node) if isinstance(n, ast.If) and is_switch(n.test) and n.orelse]
+    return [n for n in walk_no_nested(f.node) if isinstance(n, ast.If) and is_switch(n.test, P, f) and n.orelse]
 
 
 def kernel_calls(P, f, stmts):
@@ -377,7 +427,7 @@ def check_class_split(P, R, key="factor_analysis:FactorAnalysisBase.fit_using_ar
     f = P.func(key)
     R.analysed(f)
     du = get_defuse(f, P)
-    sites = switch_sites(P, f) or [n for n in walk_no_nested(f.node) if isinstance(n, ast.If) and is_switch(n.test)]
+    sites = switch_sites(P, f) or [n for n in walk_no_nested(f.node) if isinstance(n, ast.If) and is_switch(n.test, P, f)]
     n = 0
     for site in sites:
         # the task comprehension over the partitions
